@@ -3,11 +3,12 @@
 # builds /repo's library from the current working tree and runs the generic replay driver against it
 set -e
 HERE=$(cd "$(dirname "$0")" && pwd)
-( cd /repo && cargo build --lib --offline >/dev/null 2>&1 )
+# (deps/libsqlgrep.rlib is written by /repo's own package only; the uplifted target/debug/libsqlgrep.rlib can be a scratch copy's)
+( cd /repo && touch src/lib.rs && cargo build --lib --offline >/dev/null 2>&1 )
 . "$1"
 DRIVER=${DRIVER:-query_replay}
 BIN=$(mktemp -d)/$DRIVER
-rustc --edition 2018 -O "$HERE/src/$DRIVER.rs" --extern sqlgrep=/repo/target/debug/libsqlgrep.rlib -L dependency=/repo/target/debug/deps -o "$BIN" 2>/dev/null
+rustc --edition 2018 -O "$HERE/src/$DRIVER.rs" --extern sqlgrep=/repo/target/debug/deps/libsqlgrep.rlib -L dependency=/repo/target/debug/deps -o "$BIN" 2>/dev/null
 export JOIN_FILE_CONTENT FORMAT
 "$BIN" "$TABLE" "$QUERY" "$EXPECT" "$@"
 rc=$?
